@@ -284,8 +284,10 @@ func FixedBufferCleaner(
 	callback func(notification FixedBufferCleanerNotification), // (optional) callback hooks any forced cleanups
 ) Cleaner {
 	return func(size int, offsets []int) int {
-		if size > max {
-			trim := size - target
+		shift := DefaultCleaner(size, offsets)
+		// only force (and notify) if it actually cleans up past the default, otherwise values already consumed by
+		// every consumer, beyond the forced trim, would be retained until the next change to the buffer
+		if trim := size - target; size > max && trim > shift {
 			if callback != nil {
 				callback(FixedBufferCleanerNotification{
 					Max:     max,
@@ -297,7 +299,7 @@ func FixedBufferCleaner(
 			}
 			return trim
 		}
-		return DefaultCleaner(size, offsets)
+		return shift
 	}
 }
 
